@@ -134,9 +134,11 @@ pub fn run_seca(compact: bool, warm: &[Vec<u8>], steady: &[Vec<u8>]) -> Vec<u64>
         for p in warm { c.consume(&mut ctx, &Packet::new(p)); }
         SLICES.with(|c| c.set(0));
         let a0 = ALLOCS.load(Ordering::Relaxed);
-        for p in steady { c.consume(&mut ctx, &Packet::new(p)); }
+        OUTSIDE.with(|c| c.set(0));
+        let single = warm.len() == 3;                 // three warm-up transmissions of one packet each
+        for p in steady { RANGE.with(|r| r.set(if single { (p.as_ptr() as usize, p.len()) } else { (0, usize::MAX) })); c.consume(&mut ctx, &Packet::new(p)); }
         let a1 = ALLOCS.load(Ordering::Relaxed);
-        vec![a1 - a0, SLICES.with(|c| c.get())]
+        vec![a1 - a0, SLICES.with(|c| c.get()), OUTSIDE.with(|c| c.get())]
     }} }
     if compact { drive!(psi::SectionPacketConsumer::new(psi::CompactSyntaxSectionProcessor::new(psi::BufferCompactSyntaxParser::new(QuietSec)))) }
     else { drive!(psi::SectionPacketConsumer::new(psi::SectionSyntaxSectionProcessor::new(psi::BufferSectionSyntaxParser::new(QuietSec)))) }
